@@ -101,7 +101,82 @@ def run_C08(run):
                       CHECKER)
 
 
-TABLE = {"C02": run_C02, "C10": run_C10, "C08": run_C08}
+# ------------------------------------------------------------------------------------------ C17
+def gen_and_trace(run, gen_script, args, trials=4):
+    """run a TU generator, compile every TU in parallel against /repo, run the trace programs; returns (stats, modules, bins)"""
+    src = os.path.join(run.dir, "src")
+    rc, out, err, dt = core.sh(["python3", os.path.join(core.TRACE, gen_script), src] + args, timeout=120)
+    tus = [l.split(None, 2) for l in out.strip().split("\n") if l.strip()]
+    def one(t):
+        fn, mod = t[0], t[1]; flags = t[2].split() if len(t) > 2 else []
+        exe = os.path.join(run.dir, mod + ".bin")
+        cmd = [core.CXX, "-std=gnu++17", "-O0", "-ffp-contract=off", "-w", "-I" + os.path.join(core.TRACE, "shim"), "-I" + core.TRACE, "-I" + core.REPO] + flags + [fn, "-o", exe]
+        rc, o, e, dt = core.sh(cmd, timeout=900)
+        run.logonly("== compile", " ".join(cmd), "rc=%d %.1fs" % (rc, dt))
+        if rc != 0:
+            run.logonly(e[-4000:]); return mod, None, e
+        env = dict(os.environ); env["VERIF_SEED"] = str(run.seed); env["VT_TRIALS"] = str(trials)
+        v = os.path.join(run.dir, mod + ".v"); lg = os.path.join(run.dir, mod + ".tracelog")
+        rc, o, e, dt = core.sh([exe, v, lg], timeout=600, env=env)
+        if rc != 0 or not os.path.exists(lg): return mod, None, "trace program crashed rc=%d %s" % (rc, e[-500:])
+        txt = open(lg).read(); st = {"module": mod}
+        m = re.search(r"STATS (.*)", txt)
+        if m:
+            for kv in m.group(1).split():
+                k, vv = kv.split("="); st[k] = int(vv)
+        st["aborts"] = re.findall(r"^ABORT (\S+) : (.*)$", txt, re.M); st["mismatch_lines"] = re.findall(r"^MISMATCH .*$", txt, re.M)
+        return mod, st, None
+    stats, mods, bins = [], [], []
+    for mod, st, err in par([lambda t=t: one(t) for t in tus]):
+        if st is None:
+            names = sorted(set(re.findall(r"void ent_([A-Za-z0-9_]+)", err or "")))[:8]
+            run.broken.append({"what": "trace TU %s does not compile against /repo (entries involved: %s)" % (mod, ", ".join(names) or "?"), "detail": "\n".join(l for l in (err or "").split("\n") if "error" in l)[:2500]})
+            continue
+        if st["mismatch_lines"]:
+            run.broken.append({"what": "translator self-validation mismatch in %s" % mod, "detail": "\n".join(st["mismatch_lines"][:8])})
+        stats.append(st); mods.append(mod); bins.append(os.path.join(run.dir, mod + ".bin"))
+    return stats, sorted(mods), bins
+
+def write_all_module(run, prefix, mods):
+    f = os.path.join(run.dir, prefix + "_all.v")
+    open(f, "w").write("Require Import List String.\nFrom GLMV Require Import Expr.\n" + "".join("From W Require %s.\n" % m for m in mods)
+                       + "Definition catalogue : list (string * tree) := " + (" ++ ".join(m + ".catalogue" for m in mods) or "nil") + ".\n")
+    return f
+
+def probe_compile(run, name, code, flags):
+    """compile-only probe used for findings that are ill-formed instantiations; returns True when it compiles"""
+    src = os.path.join(run.dir, name + ".cpp"); open(src, "w").write(code)
+    rc, o, e, dt = core.sh([core.CXX, "-std=gnu++17", "-fsyntax-only", "-w", "-I" + core.REPO] + flags + [src], timeout=300)
+    return rc == 0
+
+def run_C17(run):
+    stats, mods, bins = gen_and_trace(run, "gen_C17.py", [run.tier])
+    trace_cov(run, stats)
+    gens = [os.path.join(run.dir, m + ".v") for m in mods]
+    res = run.coq_parallel(gens)
+    for f, (ok, out, err, dt) in res.items():
+        if not ok: run.broken.append({"what": "generated model %s is not accepted by Coq" % os.path.basename(f), "detail": err[-1500:]})
+    allf = write_all_module(run, "Gen_C17", mods)
+    ok = run.prove([allf], [], ["C17/P_C17.v"], "C17/Properties_C17.v")
+    fails = []
+    if not ok:
+        fails = run.tag_search("Require Import ZArith List String Bool.\nImport ListNotations.\nFrom GLMV Require Import Expr Cat Chk SpecSwizzle.\nFrom W Require Gen_C17_all.\n"
+                               + open(os.path.join(core.VERIF, "coq", "props", "C17", "P_C17.v")).read().split("Lemma every_entry_is_its_specification")[0].split("Local Open Scope Z_scope.")[1]
+                               .join(["Local Open Scope string_scope.\nLocal Open Scope Z_scope.\n", ""])
+                               + "Eval vm_compute in (map (fun e => (fst e, option_map (map evalTag) (expected (fst e)))) (filter (fun e => negb (entry_ok e)) cat)).\n", bins)
+    # compile-time known finding: 3-letter writable swizzles of a vec4 that name w
+    if not probe_compile(run, "probe_xyw", "#define GLM_FORCE_SWIZZLE\n#include <glm/glm.hpp>\nint main(){ glm::vec4 v(1,2,3,4); v.xyw = glm::vec3(7,8,9); return (int)v.w; }\n", ["-D_MSC_EXTENSIONS"]):
+        fails.append({"fn": "swizzle_write_vec4_3letters_with_w", "class": "ill-formed", "input": "v.xyw = vec3(7,8,9) (operator swizzles)", "expected": "assignable: no repeated letter", "got": "does not compile"})
+    run.fails = run.triage(fails)
+    run.assumptions = ["identity of expression trees with symbolic inputs: holds for all component values; Cv nodes are exactly the static_casts the constructor performs",
+                       "element type float (and int arguments for cross-type constructors); other element types share the templates; SIMD shuffle specialisations are covered under C03",
+                       "operator swizzles are traced with -D_MSC_EXTENSIONS (GLM_LANG_EXT), the only way to enable them on GCC without a SIMD arch"]
+    return run.finish(TRUST_COMMON + ["gen_C17.py: enumerates accessor names / constructor signatures by rule (the Coq side re-generates the required name list independently and checks completeness)"],
+                      "finite enumeration: all 2/3/4-letter words over xyzw/rgba/stpq for source lengths 2-4 in member-function and operator form, gtx free functions for lengths 1-4, writable operator swizzles, all vector constructor argument-shape compositions with scalar/vec1/int mixes, matrix and quaternion constructors; component values symbolic",
+                      CHECKER)
+
+
+TABLE = {"C02": run_C02, "C10": run_C10, "C08": run_C08, "C17": run_C17}
 
 
 def replay(pid, path):
